@@ -75,6 +75,7 @@ type lpFaults struct {
 	ctorPanic     models.ShardID // Shard.IndexDB panics: in the operator constructor called from shardScanStage.Plan()
 	metaErr       bool           // the metadata database's Suggest*/GetSchema calls return an (injected) I/O error
 	metaPanic     bool           // … panic
+	indexErr      models.ShardID // the shard's index database RETURNS an (injected) read error: GetSeriesIDsForMetric (metricAllSeries, a trackable operator), GetSeriesIDsByTagValueIDs (seriesFiltering, trackable)
 	collectErr    bool           // MetricMetaDatabase.CollectTagValues (the group-by tag value collect after the last grouping task) fails
 }
 
@@ -207,7 +208,17 @@ type lpIndexDB struct {
 	id models.ShardID
 }
 
+func (d *lpIndexDB) GetSeriesIDsByTagValueIDs(id tag.KeyID, ids *roaring.Bitmap) (*roaring.Bitmap, error) {
+	if ft := d.f.get(); ft.indexErr != 0 && ft.indexErr == d.id {
+		return nil, fmt.Errorf("GetSeriesIDsByTagValueIDs of shard %d: %w", d.id, errInjectedIO)
+	}
+	return d.MetricIndexDatabase.GetSeriesIDsByTagValueIDs(id, ids)
+}
+
 func (d *lpIndexDB) GetSeriesIDsForMetric(metricID metric.ID) (*roaring.Bitmap, error) {
+	if ft := d.f.get(); ft.indexErr != 0 && ft.indexErr == d.id {
+		return nil, fmt.Errorf("GetSeriesIDsForMetric of shard %d: %w", d.id, errInjectedIO)
+	}
 	if ft := d.f.get(); ft.execPanic != 0 && ft.execPanic == d.id {
 		panic(fmt.Sprintf("injected panic in MetricIndexDatabase.GetSeriesIDsForMetric of shard %d", d.id))
 	}
@@ -429,6 +440,7 @@ type lpScenario struct {
 	tagKey    string
 	tolerated bool // the stage fails with a not-found error, which the suggest callback answers as an empty result
 	badType   bool // a request type the leaf processor does not dispatch (Process's default branch)
+	whereHost bool // data search with the tag filter host = 'h1' (series filtering instead of all series)
 	collect   bool // the group-by tag value collect fails and answers the request itself
 }
 
@@ -454,6 +466,10 @@ func lpScenarios() []lpScenario {
 		{name: "unreadable-plan", tree: "-", wantErr: true, metric: lpMetric, field: lpField, badPlan: true},
 		{name: "unreadable-statement", tree: "-", wantErr: true, metric: lpMetric, field: lpField, shards: []models.ShardID{1}, badStmt: true},
 		{name: "not-a-leaf-of-the-plan", tree: "-", wantErr: true, metric: lpMetric, field: lpField, shards: []models.ShardID{1}, notLeaf: true},
+		// a REAL trackable operator (it implements Stats()) returns an error in one shard's pooled scan stage
+		{name: "index-read-error-in-metric-all-series", tree: "So(Ae," + lpShardOK + ")", wantErr: true, metric: lpMetric, field: lpField, shards: []models.ShardID{1, 2}, faults: lpFaults{indexErr: 1}},
+		{name: "index-read-error-in-series-filtering", tree: "So(Ae,Ao)", wantErr: true, metric: lpMetric, field: lpField, whereHost: true, shards: []models.ShardID{1, 2}, faults: lpFaults{indexErr: 1}},
+		{name: "healthy-where-host", tree: "So(" + lpShardOK + ",Ao)", metric: lpMetric, field: lpField, whereHost: true, shards: []models.ShardID{1, 2}},
 		// group by: after the last grouping task LeafGroupingContext.collectGroupByTagValues reads the tag
 		// values; when that fails IT answers the request (through the guarded SendResponse), before the
 		// pipeline's completion callback
@@ -494,6 +510,9 @@ func (w *lpWorld) request(id string, sc *lpScenario) (*protoCommonV1.TaskRequest
 	}
 	if sc.where {
 		q.Condition = &stmt.EqualsExpr{Key: "nokey", Value: "x"}
+	}
+	if sc.whereHost && sc.meta == 0 {
+		q.Condition = &stmt.EqualsExpr{Key: lpTagKey, Value: "h1"}
 	}
 	if sc.groupBy {
 		q.GroupBy = []string{lpTagKey}
